@@ -804,4 +804,156 @@ pub fn check_consistency(store: &AnnotationStore, obs: &Obs, sc: &mut StepCheck,
         }
     }
     let _ = model;
+    check_plural(store, sc);
+}
+
+/// The iterator-level ("plural") maps are documented as the sorted, duplicate-free union of the item-level ones
+/// (`AnnotationIterator::annotations / annotations_in_targets / data / keys / resources / ...`, `DataIterator::annotations
+/// / annotations_as_metadata / keys`, `KeyIterator::annotations / annotations_as_metadata`, `ResourcesIterator::annotations /
+/// annotations_as_metadata`, `TextSelectionIterator::annotations`). Differential check: each plural map over all items
+/// (in store order and reversed) against the union of the corresponding item-level map, which the rest of this battery
+/// validates against the forward references.
+fn check_plural(store: &AnnotationStore, sc: &mut StepCheck) {
+    type K = (usize, usize);
+    fn a_key(a: &ResultItem<Annotation>) -> K {
+        (0, a.handle().as_usize())
+    }
+    fn r_key(r: &ResultItem<TextResource>) -> K {
+        (0, r.handle().as_usize())
+    }
+    fn d_key(d: &ResultItem<AnnotationData>) -> K {
+        (d.set().handle().as_usize(), d.handle().as_usize())
+    }
+    fn k_key(k: &ResultItem<DataKey>) -> K {
+        (k.set().handle().as_usize(), k.handle().as_usize())
+    }
+    let mut cmp = |name: &str, order: &str, got: Vec<K>, mut expected: Vec<K>, strict_order: bool| {
+        sc.checks += 1;
+        expected.sort();
+        expected.dedup();
+        let mut g = got.clone();
+        g.sort();
+        let dup = g.windows(2).any(|w| w[0] == w[1]);
+        g.dedup();
+        if dup {
+            sc.add(Fam::Index, &format!("plural.{}", name), format!("duplicate|{}", order), format!("{} over all items ({}) returned an item twice: {:?}", name, order, got));
+        } else if g != expected {
+            sc.add(Fam::Index, &format!("plural.{}", name), format!("content|{}", order), format!("{} over all items ({}) returned {:?}, the union of the item-level results is {:?}", name, order, got, expected));
+        } else if strict_order && got != expected {
+            sc.add(Fam::Index, &format!("plural.{}", name), format!("order|{}", order), format!("{} over all items ({}) returned {:?}, documented as sorted chronologically: {:?}", name, order, got, expected));
+        } else if !strict_order {
+            // per holding set the order must still be ascending
+            let mut last: std::collections::BTreeMap<usize, usize> = Default::default();
+            for (s_, h) in &got {
+                if let Some(prev) = last.get(s_) {
+                    if prev > h {
+                        sc.add(Fam::Index, &format!("plural.{}", name), format!("order|{}", order), format!("{} over all items ({}) returned {:?}, not chronological within set {}", name, order, got, s_));
+                        break;
+                    }
+                }
+                last.insert(*s_, *h);
+            }
+        }
+    };
+    for order in ["store-order", "reversed"] {
+        let rev = order == "reversed";
+        let anns = || -> Vec<ResultItem<Annotation>> {
+            let mut v: Vec<_> = store.annotations().collect();
+            if rev {
+                v.reverse();
+            }
+            v
+        };
+        let data = || -> Vec<ResultItem<AnnotationData>> {
+            let mut v: Vec<_> = store.datasets().flat_map(|s| s.data()).collect();
+            if rev {
+                v.reverse();
+            }
+            v
+        };
+        let keys = || -> Vec<ResultItem<DataKey>> {
+            let mut v: Vec<_> = store.datasets().flat_map(|s| s.keys()).collect();
+            if rev {
+                v.reverse();
+            }
+            v
+        };
+        let ress = || -> Vec<ResultItem<TextResource>> {
+            let mut v: Vec<_> = store.resources().collect();
+            if rev {
+                v.reverse();
+            }
+            v
+        };
+        // ---- from annotations
+        cmp("annotations.annotations", order, anns().into_iter().annotations().map(|a| a_key(&a)).collect(), anns().iter().flat_map(|a| a.annotations().map(|x| a_key(&x)).collect::<Vec<_>>()).collect(), true);
+        cmp(
+            "annotations.annotations_in_targets",
+            order,
+            anns().into_iter().annotations_in_targets(AnnotationDepth::One).map(|a| a_key(&a)).collect(),
+            anns().iter().flat_map(|a| a.annotations_in_targets(AnnotationDepth::One).map(|x| a_key(&x)).collect::<Vec<_>>()).collect(),
+            true,
+        );
+        cmp("annotations.data", order, anns().into_iter().data().map(|d| d_key(&d)).collect(), anns().iter().flat_map(|a| a.data().map(|x| d_key(&x)).collect::<Vec<_>>()).collect(), false);
+        cmp("annotations.keys", order, anns().into_iter().keys().map(|k| k_key(&k)).collect(), anns().iter().flat_map(|a| a.keys().map(|x| k_key(&x)).collect::<Vec<_>>()).collect(), false);
+        cmp("annotations.resources", order, anns().into_iter().resources().map(|r| r_key(&r)).collect(), anns().iter().flat_map(|a| a.resources().map(|x| r_key(&x)).collect::<Vec<_>>()).collect(), true);
+        cmp(
+            "annotations.resources_as_metadata",
+            order,
+            anns().into_iter().resources_as_metadata().map(|r| r_key(&r)).collect(),
+            anns().iter().flat_map(|a| a.resources_as_metadata().map(|x| r_key(&x)).collect::<Vec<_>>()).collect(),
+            true,
+        );
+        cmp(
+            "annotations.data_as_metadata",
+            order,
+            anns().into_iter().data_as_metadata().map(|d| d_key(&d)).collect(),
+            anns().iter().flat_map(|a| a.data_as_metadata().map(|x| d_key(&x)).collect::<Vec<_>>()).collect(),
+            false,
+        );
+        cmp(
+            "annotations.keys_as_metadata",
+            order,
+            anns().into_iter().keys_as_metadata().map(|k| k_key(&k)).collect(),
+            anns().iter().flat_map(|a| a.keys_as_metadata().map(|x| k_key(&x)).collect::<Vec<_>>()).collect(),
+            false,
+        );
+        // ---- from data
+        cmp("data.annotations", order, data().into_iter().annotations().map(|a| a_key(&a)).collect(), data().iter().flat_map(|d| d.annotations().map(|x| a_key(&x)).collect::<Vec<_>>()).collect(), true);
+        cmp(
+            "data.annotations_as_metadata",
+            order,
+            data().into_iter().annotations_as_metadata().map(|a| a_key(&a)).collect(),
+            data().iter().flat_map(|d| d.annotations_as_metadata().map(|x| a_key(&x)).collect::<Vec<_>>()).collect(),
+            true,
+        );
+        cmp("data.keys", order, data().into_iter().keys().map(|k| k_key(&k)).collect(), data().iter().map(|d| k_key(&d.key())).collect(), false);
+        // ---- from keys
+        cmp("keys.annotations", order, keys().into_iter().annotations().map(|a| a_key(&a)).collect(), keys().iter().flat_map(|k| k.annotations().map(|x| a_key(&x)).collect::<Vec<_>>()).collect(), true);
+        cmp(
+            "keys.annotations_as_metadata",
+            order,
+            keys().into_iter().annotations_as_metadata().map(|a| a_key(&a)).collect(),
+            keys().iter().flat_map(|k| k.annotations_as_metadata().map(|x| a_key(&x)).collect::<Vec<_>>()).collect(),
+            true,
+        );
+        // ---- from resources
+        cmp("resources.annotations", order, ress().into_iter().annotations().map(|a| a_key(&a)).collect(), ress().iter().flat_map(|r| r.annotations().map(|x| a_key(&x)).collect::<Vec<_>>()).collect(), true);
+        cmp(
+            "resources.annotations_as_metadata",
+            order,
+            ress().into_iter().annotations_as_metadata().map(|a| a_key(&a)).collect(),
+            ress().iter().flat_map(|r| r.annotations_as_metadata().map(|x| a_key(&x)).collect::<Vec<_>>()).collect(),
+            true,
+        );
+        // ---- from text selections
+        let tsels = || -> Vec<ResultTextSelection> {
+            let mut v: Vec<_> = store.resources().flat_map(|r| r.textselections().collect::<Vec<_>>()).collect();
+            if rev {
+                v.reverse();
+            }
+            v
+        };
+        cmp("textselections.annotations", order, tsels().into_iter().annotations().map(|a| a_key(&a)).collect(), tsels().iter().flat_map(|t| t.annotations().map(|x| a_key(&x)).collect::<Vec<_>>()).collect(), true);
+    }
 }
